@@ -274,18 +274,50 @@ class C17(Prop):
                 sorted(num(h) for h in prof.valid_vocabulary_hashes),
                 sorted(num(h) for h in prof.valid_structure_hashes), F(prof.canary_accuracy_min))
 
+    @staticmethod
+    def _structure(text):
+        """what kind of output this is (own reading of the documented categories)"""
+        import json as _json
+        import re as _re
+        x = text.strip()
+        if x[:1] in ("{", "["):
+            try:
+                _json.loads(x)
+                return "json"
+            except Exception:
+                pass
+        if _re.match(r"\d+\.\s", x):
+            return "numbered_list"
+        if _re.match(r"[-*]\s", x):
+            return "bullet_list"
+        if x.startswith("#"):
+            return "markdown"
+        return "plain"
+
+    def window_fp(self, disp):
+        """the agent's CURRENT behaviour, computed by the oracle itself from the observation window (public attributes
+        `observations`, `canary_results`, `min_observations`) — never through generate_peptide()."""
+        import re as _re
+        if disp is None or isinstance(disp, _Stub):
+            return None
+        obs = list(disp.observations)
+        if len(obs) < disp.min_observations or not obs:
+            return None
+        n = len(obs)
+        lens = [len(o.output) if o.output else 0 for o in obs]
+        vocab = frozenset(w for o in obs if o.output for w in _re.findall(r"[0-9a-z_]+", o.output.lower()))
+        structs = frozenset(self._structure(o.output) for o in obs if o.output)
+        ca = F(sum(1 for c in disp.canary_results if c), len(disp.canary_results)) if disp.canary_results else None
+        return (F(sum(lens), n), F(0), sum(F(o.response_time) for o in obs) / n, F(0),
+                sum(F(o.confidence) for o in obs) / n, F(0), vocab, structs, F(sum(1 for o in obs if o.error), n), ca)
+
     def shown_fp(self, disp):
-        """the fingerprint the agent shows now, in oracle layout (an observation of the implementation)"""
+        """the fingerprint the agent shows now, in oracle layout"""
         if disp is None:
             return None
         if isinstance(disp, _Stub):
             return disp.fp if disp.pep is not None else None
-        pep = disp.generate_peptide()
-        if pep is None:
-            return None
-        return (F(pep.output_length_mean), F(pep.output_length_std), F(pep.response_time_mean), F(pep.response_time_std),
-                F(pep.confidence_mean), F(pep.confidence_std), self.hid(pep.vocabulary_hash), self.hid(pep.structure_hash),
-                F(pep.error_rate), None if pep.canary_accuracy is None else F(pep.canary_accuracy))
+        return self.window_fp(disp)
 
     def mk_cond(self, c):
         T = self.T
@@ -337,7 +369,7 @@ class C17(Prop):
         obs, extra = [], []
         st = {"tc": None, "treg": TR.RegulatoryTCell(rules=[], stability_threshold=100),
               "th": TH.Thymus(min_training_samples=10, tolerance=2.0, variance_threshold=0.5), "samples": [],
-              "ims": None}
+              "ims": None, "trained_sets": {}}
 
         def ims():
             if st["ims"] is None:
@@ -375,6 +407,11 @@ class C17(Prop):
                     o = "no-tcell" if st["tc"] is None else str(len(st["tc"].profile.check(self.mk_pep("a", fp_parse(t[1:])))))
                 elif op == "flag" and len(t) == 2:
                     o = tstep(lambda tc: tc.flag_manually("reason" if t[1] == "1" else ""))
+                elif op == "tset" and len(t) == 3 and t[1] in ("rep", "anergy"):
+                    o = tstep(lambda tc: setattr(tc, "repeated_anomaly_threshold" if t[1] == "rep" else "anergy_threshold",
+                                                 int(t[2])))
+                elif op == "tset" and len(t) == 12 and t[1] == "profile":
+                    o = tstep(lambda tc: setattr(tc, "profile", self.mk_profile("a", prof_parse(t[2:12]))))
                 elif op == "treset" and len(t) == 1:
                     o = tstep(lambda tc: tc.reset())
                 elif op == "tresetfa" and len(t) == 1:
@@ -478,6 +515,11 @@ class C17(Prop):
                         res = ims().train_agent(a)
                         o = {"POSITIVE": "positive", "ANERGIC": "anergic", "INSUFFICIENT_DATA": "insufficient"}.get(res.name, "?")
                         ex = {"kind": "train", "agent": int(t[1]), "result": o}
+                        if o == "positive":
+                            st["trained_sets"].pop(a, None)
+                            w = self.window_fp(ims().displays.get(a))
+                            if w is not None and isinstance(ims().displays.get(a), self.DISP.MHCDisplay):
+                                st["trained_sets"][a] = (w[6], w[7])
                     except statistics.StatisticsError:     # (a subclass of ValueError)
                         o = "raise:StatisticsError"
                     except ValueError:
@@ -488,9 +530,14 @@ class C17(Prop):
                     S = ims()
                     tc = S.tcells.get(a)
                     disp = S.displays.get(a)
+                    prof_view = self.read_profile(tc.profile) if tc is not None else None
+                    if prof_view is not None and a in st["trained_sets"] and isinstance(disp, self.DISP.MHCDisplay):
+                        vs_, ss_ = st["trained_sets"][a]         # hashes stand for the sets they were computed from
+                        prof_view = prof_view[:7] + ([vs_], [ss_], prof_view[9])
                     ex = {"kind": "pinspect", "agent": n,
-                          "profile": self.read_profile(tc.profile) if tc is not None else None,
-                          "anergic_before": bool(tc.is_anergic) if tc is not None else None,
+                          "profile": prof_view,
+                          # desensitised = false alarms on record have reached the threshold assigned NOW
+                          "anergic_before": bool(tc.anergy_count >= tc.anergy_threshold) if tc is not None else None,
                           "rep": tc.repeated_anomaly_threshold if tc is not None else None,
                           "flag_before": bool(tc.manual_flag) if tc is not None else None,
                           "fp": self.shown_fp(disp), "raw": None, "evals": []}
@@ -527,6 +574,25 @@ class C17(Prop):
                     o = "ok"
                 elif op == "unrec" and len(t) == 2:
                     ims().treg.records.pop(f"a{int(t[1])}", None)
+                    o = "ok"
+                elif op == "pset" and len(t) == 4 and t[2] in ("rep", "anergy"):
+                    tc = ims().tcells.get(f"a{int(t[1])}")
+                    if tc is not None:
+                        setattr(tc, "repeated_anomaly_threshold" if t[2] == "rep" else "anergy_threshold", int(t[3]))
+                    o = "ok"
+                elif op == "pset" and len(t) == 13 and t[2] == "profile":
+                    a = f"a{int(t[1])}"
+                    tc = ims().tcells.get(a)
+                    if tc is not None:
+                        tc.profile = self.mk_profile(a, prof_parse(t[3:13]))
+                        st["trained_sets"].pop(a, None)
+                    o = "ok"
+                elif op == "gset" and len(t) >= 2:
+                    ims().treg.rules = self.mk_rules(t[2:])
+                    ims().treg.stability_threshold = int(t[1])
+                    o = "ok"
+                elif op == "mset" and len(t) == 2:
+                    ims().memory.capacity = int(t[1])
                     o = "ok"
                 elif op == "updated" and len(t) == 2:
                     ims().mark_agent_updated(f"a{int(t[1])}")
@@ -579,6 +645,7 @@ class C17(Prop):
         remembered = set()          # (agent, vocab, struct) of threats the pipeline reported earlier
         streak = {}
         fresh_trained = {}          # agent -> True between a positive training and the next change of the window
+        assigned_rep = {}           # agent -> True once the operator assigned the anomaly threshold of this watcher
         for idx, (line, o, ex) in enumerate(zip(case["lines"], obs, extra)):
             t = line.split()
             op = t[0] if t else ""
@@ -606,8 +673,9 @@ class C17(Prop):
                 level, action, s1, s2 = f[0], f[1], f[2], f[3]
                 pr, p = ex["profile"], ex["fp"]
                 v = violates(pr, p)
-                desens = t_false_alarms >= ex["anergy_thr"]
-                t_streak = t_streak + 1 if v else 0
+                desens = t_false_alarms >= ex["anergy_thr"]        # the threshold assigned at this moment
+                if not desens:                                       # a desensitised watcher is not looking
+                    t_streak = t_streak + 1 if v else 0
                 second = canary_fails(pr, p) or t_flag or t_streak >= ex["rep"]
                 out += self._clauses(idx, level, action, s2, v, second, desens, "tcell")
                 if level == "critical" and action != "shutdown":
@@ -630,8 +698,14 @@ class C17(Prop):
                 if o == "positive":
                     fresh_trained[a] = True
                     streak[a] = 0
+                    assigned_rep[a] = False
             elif op == "preset" or op == "presetfa":
                 streak[int(t[1])] = 0
+            elif op == "pset" and len(t) >= 3:
+                if t[2] == "rep":
+                    assigned_rep[int(t[1])] = True
+                if t[2] == "profile":
+                    fresh_trained[int(t[1])] = False
             elif op == "import":
                 for it in t[1:]:
                     f_ = it.split(":")
@@ -641,7 +715,7 @@ class C17(Prop):
                 a = ex["agent"]
                 p, pr = ex["fp"], ex["profile"]
                 v = violates(pr, p) if (p is not None and pr is not None) else False
-                if p is not None and pr is not None:
+                if p is not None and pr is not None and not ex["anergic_before"]:
                     streak[a] = streak.get(a, 0) + 1 if v else 0      # the anomaly was seen even if a rule then raised
                 if o.startswith("raise:"):
                     continue
@@ -652,7 +726,8 @@ class C17(Prop):
                         out.append(Violation("no_fingerprint_no_threat", "none ignore", o, idx))
                     continue
                 # "repeated" anomaly: the watcher's threshold, and in any reading at least two in a row
-                second = (canary_fails(pr, p) or ex["flag_before"] or streak[a] >= max(ex["rep"], 2)
+                rep_eff = ex["rep"] if assigned_rep.get(a) else max(ex["rep"], 2)
+                second = (canary_fails(pr, p) or ex["flag_before"] or streak.get(a, 0) >= rep_eff
                           or (a, p[6], p[7]) in remembered)
                 out += self._clauses(idx, level, action, s2, v, second, ex["anergic_before"], "pipeline")
                 if fresh_trained.get(a) and level != "none":
@@ -783,6 +858,15 @@ class C17(Prop):
                 lines.append("inspect " + " ".join(fp_tokens(fp)))
             elif x < 0.66 or style == "streak" and x < 0.85:
                 lines.append("inspect " + " ".join(fp_tokens(self.gen_fp(rng, pr, rng.choice([1, 2, 3]) if style == "streak" and rng.random() < 0.8 else None))))
+            elif x < 0.70:
+                y = rng.random()
+                if y < 0.4:
+                    lines.append(f"tset anergy {rng.choice([0, 1, 2, 2, 3, 5, 100])}")
+                elif y < 0.75:
+                    lines.append(f"tset rep {rng.choice([1, 2, 3, 3, 5, 0])}")
+                else:
+                    pr = self.gen_profile(rng)
+                    lines.append("tset profile " + " ".join(prof_tokens(pr)))
             elif x < 0.76:
                 lines.append("flag " + rng.choice(["1", "1", "1", "0"]))
             elif x < 0.84:
@@ -996,13 +1080,33 @@ class C17(Prop):
                 lines.append(f"reg {a}")
             elif x < 0.96:
                 lines.append(f"unrec {a}")
-            elif x < 0.975:
+            elif x < 0.97:
                 lines.append(f"pinspect {rng.choice([0, 1, 2, 3])}")
+            elif x < 0.985:
+                lines.append(self.config_op(rng, agents, prof))
             else:
                 lines.append(self.memory_op(rng, agents, base))
         return {"lines": lines, "note": "pipeline"}
 
     GOOD_PAIRS = ["confirmed:isolate", "confirmed:monitor", "critical:shutdown"]
+
+    def config_op(self, rng, agents, prof):
+        """assignment to public configuration attributes after construction"""
+        x = rng.random()
+        a = rng.choice(agents)
+        if x < 0.3:
+            return f"pset {a} anergy {rng.choice([0, 1, 2, 2, 3, 5, 100])}"
+        if x < 0.5:
+            return f"pset {a} rep {rng.choice([1, 2, 3, 3, 5])}"
+        if x < 0.65:
+            pr = self.gen_profile(rng)
+            if a in prof:
+                prof[a] = pr
+            return f"pset {a} profile " + " ".join(prof_tokens(pr))
+        if x < 0.85:
+            rules = [f"{rng.choice(LEVELS)}:{rng.choice(CONDS[:-1])}" for _ in range(rng.choice([0, 1, 2]))]
+            return " ".join(["gset", str(rng.choice([100, 2, 0, 3]))] + rules)
+        return f"mset {rng.choice([1000, 2, 1, 0, 3])}"
 
     def memory_op(self, rng, agents, base):
         """update marks, expiry, pruning by age, export/import — imports are well formed (what an export contains)"""
@@ -1039,9 +1143,14 @@ class C17(Prop):
             lines += [f"show {a} " + " ".join(fp_tokens(threat))] + [f"pinspect {a}"] * rng.choice([3, 3, 4])
             lines.append(f"preset {a}")
         other = threat[:7] + (7,) + threat[8:]           # same anomaly under a structure hash that is not remembered
-        n_fa = rng.choice([5, 5, 5, 4, 6])
+        n_fa = rng.choice([5, 5, 5, 4, 6, 2, 1, 0])
         for _ in range(n_fa):
             lines += [f"show {a} " + " ".join(fp_tokens(other)), f"pinspect {a}", f"presetfa {a}"]
+        if n_fa < 5 or rng.random() < 0.3:
+            # the operator tunes the watcher built by train_agent: threshold assigned after the false alarms
+            lines.append(f"pset {a} anergy {rng.choice([n_fa, n_fa, max(n_fa - 1, 0), n_fa + 1, 0])}")
+            if rng.random() < 0.5:
+                threat = threat[:9] + (F(1, 4),)          # canaries failing as well
         if rng.random() < 0.5:
             lines.append(f"pflag {a} 1")
         lines += [f"show {a} " + " ".join(fp_tokens(threat)), f"pinspect {a}", f"pinspect {a}"]
@@ -1209,6 +1318,58 @@ class C17(Prop):
                       f"show {a} " + " ".join(fp_tokens(threat)), f"pinspect {a}", f"pinspect {a}"]
         return {"lines": lines, "note": "pipeline repeat inspections under an active rule"}
 
+    def case_display_full(self, rng):
+        """the sliding window is full (len == window_size) and the behaviour changes while it stays full, no canary
+        result in between: bad window -> threat confirmed and remembered -> healthy window -> must be no threat"""
+        ws = rng.choice([3, 5, 20, 5, 3])
+        mo = rng.choice([m for m in (1, 3, 5, 10) if m <= ws])
+        mn = rng.choice([10, 3, 1])
+        lines = [" ".join(["sys", str(mn), "2", "1/2", "100", str(rng.choice([1000, 2]))]), f"dreg 0 {ws} {mo}"]
+        win = []
+        words = rng.sample(range(8), 2)
+
+        def sdev(vals):
+            return F(statistics.stdev([float(v) for v in vals])) if len(vals) > 1 else F(0)
+
+        def obs(kind):
+            tm, cf, wl, err = F(1, 2), F(7, 8), [w for w in words for _ in range(2)], "-"
+            if kind == "slow":
+                tm = F(8)
+            elif kind == "err":
+                err = "1"
+            elif kind == "vocab":
+                wl = [w for w in range(8) if w not in words][:2]
+            elif kind == "lowconf":
+                cf = F(1, 16)
+            text = render("text", S_PLAIN, wl)
+            win.append((len(text), tm, cf))
+            if len(win) > ws:
+                win.pop(0)
+            sds = (sdev([o[0] for o in win]), sdev([o[1] for o in win]), sdev([o[2] for o in win]))
+            lines.append(" ".join(["obs", "0", "text", str(S_PLAIN), set_tok(wl), str(len(text)), show_rat(tm),
+                                   show_rat(cf), err] + [show_rat(x) for x in sds]))
+
+        for _ in range(rng.choice([ws, ws, ws + 2, max(mo, ws - 1)])):
+            obs("ok")
+        lines += ["train 0", "pinspect 0"]
+        bad = rng.choice(["slow", "err", "vocab", "lowconf"])
+        if rng.random() < 0.4:
+            lines.append("pflag 0 1")
+        for _ in range(ws):
+            obs(bad)
+        lines += ["pinspect 0"] * rng.choice([3, 4, 4])
+        for _ in range(rng.choice([ws, ws, ws + 1])):
+            obs("ok")
+        lines += ["pinspect 0", "pinspect 0"]
+        if rng.random() < 0.5:
+            for _ in range(ws):
+                obs(rng.choice(["slow", "vocab"]))
+            lines += ["pinspect 0"]
+            for _ in range(ws):
+                obs("ok")
+            lines += ["pinspect 0"]
+        return {"lines": lines, "note": "real display, full window, behaviour changes while full"}
+
     def case_malformed(self, rng):
         junk = ["", "inspect", "inspect 1 2 3", "tcell 3 5", "evaluate none", "expire 1", "pruneold", "updated", "reimport 1", "pinspect", "show 0", "train", "frobnicate 1",
                 "ttrain 0 0 0", "treset", "flag 1", "check 1 2 3 4 5 6 7 8 9 none", "sample 1 2"]
@@ -1223,7 +1384,9 @@ class C17(Prop):
                 c = self.case_pipeline_repeat(rng)
             elif x < 0.10:
                 c = self.case_pipeline_anergy(rng)
-            elif x < 0.16:
+            elif x < 0.13:
+                c = self.case_display_full(rng)
+            elif x < 0.20:
                 c = self.case_display(rng)
             elif x < 0.36:
                 c = self.case_pipeline(rng)
